@@ -184,6 +184,18 @@ def stress(rng: random.Random, nthreads: int, ncalls: int, nprints: int) -> tupl
     return '\n'.join(lines) + '\n', owners
 
 
+def sequential_tasks(rng: random.Random, n: int) -> tuple[str, dict]:
+    """Tasks (and threads) created one after the other, each ended and released before the next one is created: new objects
+    are given the addresses of old ones."""
+    lines = ['import asyncio, threading, gc', '', 'async def seq_task(i):', '    await asyncio.sleep(0)', "    print('Q', i)", '    return i', '',
+             'def seq_thread(i):', "    print('R', i)", '',
+             'async def amain():', f'    for i in range({n}):', '        t = asyncio.create_task(seq_task(i))', '        await t', '        del t',
+             '        gc.collect()', '', 'asyncio.run(amain())',
+             f'for i in range({max(2, n // 2)}):', '    th = threading.Thread(target=seq_thread, args=(i,))', '    th.start()', '    th.join()', '    del th',
+             "print('main done')"]
+    return '\n'.join(lines) + '\n', {}
+
+
 def concurrent(rng: random.Random, nthreads: int, ntasks: int, nested: bool = False, pool: bool = False, join: bool = True) -> tuple[str, dict]:
     """A program with distinct worker functions per thread / task. Returns (source, {entity tag: function name}).
     With `pool`, the tasks also hand work to executor threads (`asyncio.to_thread`), which are reused."""
